@@ -9,8 +9,11 @@ fn stage(pairs: usize) -> Lockstep {
     Lockstep { name: "lockstep", mode: Mode::C01, cfg: GenCfg { subsume: false, delete: false, ..GenCfg::default() }, pairs_per_prefix: pairs, naive_engine: false }
 }
 
-pub fn replay(rep: &Report, _stage: &str, j: &serde_json::Value) -> i32 {
-    crate::registry::replay_stage(rep, &stage(5), j)
+pub fn replay(rep: &Report, stage_name: &str, j: &serde_json::Value) -> i32 {
+    match stage_name {
+        "large-table" => crate::registry::replay_stage(rep, &LargeTable, j),
+        _ => crate::registry::replay_stage(rep, &stage(5), j),
+    }
 }
 
 pub fn run(rep: &Report) {
@@ -30,4 +33,135 @@ pub fn run(rep: &Report) {
     rep.explore(&st, cases, 400);
     let big = Lockstep { cfg: GenCfg { max_cmds: 40, min_cmds: 10, ..st.cfg.clone() }, ..stage(4) };
     rep.explore(&big, rep.tier.pick(600, 12_000), 1200);
+    // > 10 000-row tables: the incremental rebuild path (a handful of unions on a big table)
+    rep.run_regressions(&LargeTable);
+    rep.explore(&LargeTable, rep.tier.pick(48, 1500), 64);
+    let inc = crate::runner::path_counters().get("table_rebuild_incremental").copied().unwrap_or(0);
+    rep.extra("incremental_table_rebuilds_entered", serde_json::json!(inc));
+}
+
+// ---------------------------------------------------------------------------
+// large-table stage: > 10 000 rows so that rebuilding takes the INCREMENTAL path
+// ---------------------------------------------------------------------------
+
+use crate::choice::{fnv_str, Src};
+use crate::fw::{Outcome, Stage};
+use crate::prog::*;
+use crate::refegg::{Limits, Model};
+
+pub struct LargeTable;
+
+fn big_sig() -> Sig {
+    let mut sig = Sig::default();
+    sig.sorts.push("S".into());
+    let ctor = |name: &str, args: Vec<Ty>| FuncDecl { name: name.into(), kind: FKind::Ctor { cost: None, unextractable: false }, args, out: Ty::Eq(0) };
+    sig.funcs.push(ctor("Num", vec![Ty::I64])); // 0
+    sig.funcs.push(ctor("F", vec![Ty::Eq(0), Ty::Eq(0)])); // 1
+    sig.funcs.push(ctor("G", vec![Ty::Eq(0)])); // 2
+    sig.funcs.push(FuncDecl { name: "R".into(), kind: FKind::Rel, args: vec![Ty::Eq(0)], out: Ty::I64 }); // 3
+    sig.funcs.push(FuncDecl { name: "H".into(), kind: FKind::Func { merge: Merge::Min }, args: vec![Ty::Eq(0)], out: Ty::I64 }); // 4
+    sig.rulesets.push("fill".into());
+    sig.rulesets.push("later".into());
+    sig
+}
+
+impl Stage for LargeTable {
+    type Input = Prog;
+    fn name(&self) -> &'static str {
+        "large-table"
+    }
+    fn decode(&self, s: &mut Src) -> Prog {
+        let sig = big_sig();
+        let n = 101 + s.below(25) as i64; // n*n > 10 000 rows of F
+        let num = |i: i64| Term::App(0, vec![Term::I(i)]);
+        let f = |a: Term, b: Term| Term::App(1, vec![a, b]);
+        let mut cmds = vec![];
+        // Num 0..n through one rule over a seed relation would need arithmetic; insert directly in one command batch
+        for i in 0..n {
+            cmds.push(Cmd::Act(Action::Expr(num(i))));
+        }
+        let (a, b, i, j) = (Term::Var("a".into()), Term::Var("b".into()), Term::Var("i".into()), Term::Var("j".into()));
+        cmds.push(Cmd::Rule {
+            body: vec![Fact::Eq(a.clone(), Term::App(0, vec![i])), Fact::Eq(b.clone(), Term::App(0, vec![j]))],
+            head: vec![Action::Expr(f(a.clone(), b.clone()))],
+            opts: RuleOpts { ruleset: Some(0), ..Default::default() },
+        });
+        cmds.push(Cmd::RunN { rs: Some(0), n: 1, until: vec![] });
+        // a congruence consumer declared late
+        if s.bool() {
+            let x = Term::Var("x".into());
+            cmds.push(Cmd::Rule { body: vec![Fact::Eq(x.clone(), f(a.clone(), a.clone()))], head: vec![Action::Expr(Term::App(3, vec![x]))], opts: RuleOpts { ruleset: Some(1), ..Default::default() } });
+        }
+        let mut rnd = |s: &mut Src| s.range(0, (n - 1).min(12));
+        let n_ops = 3 + s.below(8);
+        for _ in 0..n_ops {
+            let (p, q, r, t) = (rnd(s), rnd(s), rnd(s), rnd(s));
+            match s.below(9) {
+                0 => cmds.push(Cmd::Act(Action::Union(f(num(p), num(p)), num(q)))), // row with equal arguments, output displaced
+                1 => cmds.push(Cmd::Act(Action::Union(num(p), num(q)))),              // collapses a row and a column of F
+                2 => cmds.push(Cmd::Act(Action::Union(f(num(p), num(q)), f(num(r), num(t))))),
+                3 => cmds.push(Cmd::Act(Action::Union(f(num(p), num(q)), num(r)))),
+                4 => cmds.push(Cmd::Act(Action::Expr(Term::App(2, vec![f(num(p), num(q))])))),
+                5 => cmds.push(Cmd::Act(Action::Set(4, vec![f(num(p), num(q))], Term::I(s.range(0, 5))))),
+                6 => cmds.push(Cmd::RunN { rs: Some(1), n: 1, until: vec![] }),
+                7 => cmds.push(Cmd::Check(vec![Fact::Eq(f(num(p), num(q)), f(num(r), num(t)))])),
+                _ => cmds.push(Cmd::Check(vec![Fact::Eq(f(num(p), num(p)), num(q))])),
+            }
+        }
+        Prog { sig, cmds }
+    }
+    fn render(&self, p: &Prog) -> serde_json::Value {
+        let t = p.cmd_texts();
+        let inserts = t.iter().filter(|l| l.starts_with("(Num ")).count();
+        let rest: Vec<&String> = t.iter().filter(|l| !l.starts_with("(Num ")).collect();
+        serde_json::json!({"num_leaves": inserts, "commands": rest})
+    }
+    fn simplify(&self, p: &Prog) -> Vec<Prog> {
+        // keep the table-building prefix, drop later commands one at a time
+        let k = p.cmds.iter().position(|c| matches!(c, Cmd::RunN { .. })).map(|i| i + 1).unwrap_or(0);
+        let mut v = vec![];
+        for i in (k..p.cmds.len()).rev() {
+            let mut q = p.clone();
+            q.cmds.remove(i);
+            v.push(q);
+        }
+        v
+    }
+    fn check(&self, prog: &Prog) -> Outcome {
+        use super::{compare_dumps, declare, step_both, Step};
+        let mut out = Outcome::new(fnv_str(&prog.text()));
+        let mut eg = egglog::EGraph::default();
+        if !declare(&mut eg, &prog.sig, &mut out) {
+            return out;
+        }
+        let mut model = Model::new(&prog.sig);
+        model.limits = Limits { max_rows: 60_000, max_matches: 5_000_000, max_saturate_iters: 10 };
+        let before = crate::runner::path_counters().get("table_rebuild_incremental").copied().unwrap_or(0);
+        let mut table_built = false;
+        for (i, c) in prog.cmds.iter().enumerate() {
+            match step_both(&mut eg, &mut model, &prog.sig, i, c, &mut out) {
+                Step::Stop => break,
+                Step::Both => {}
+            }
+            if matches!(c, Cmd::RunN { .. }) {
+                table_built = true;
+            }
+            // compare after every command once the big table exists (the leaf inserts before are uninteresting)
+            if table_built && !compare_dumps(&eg, &model, &format!("after command #{i} `{}`", prog.sig.cmd(c)), &mut out) {
+                break;
+            }
+        }
+        let after = crate::runner::path_counters().get("table_rebuild_incremental").copied().unwrap_or(0);
+        if after > before {
+            out.class("incremental-rebuild-path-entered(hook counter)");
+        }
+        if model.congruence_merges >= 1 {
+            out.class("has-congruence-merge");
+        }
+        out.count("rows_in_model", model.st.total_rows() as u64);
+        // the counter is process-wide (other worker threads add to it), so the class above is an over-approximation
+        // per case; the per-run total in evidence is what shows that the path was entered at all
+        out.nontrivial = table_built && model.congruence_merges >= 1;
+        out
+    }
 }
